@@ -325,7 +325,7 @@ fn help_tokens_strategy(d: &Decl) -> BoxedStrategy<Vec<String>> {
 fn run_shard(ctx: &ShardCtx) {
     let set = declcommon::worker_set("C12", ctx);
     let servers = Servers::new();
-    let lines_per_decl = ctx.tier.pick(250u64, 1000u64);
+    let lines_per_decl = ctx.tier.pick(1500u64, 2500u64);
     let mut gi = 0u64;
     for (bin, decls) in &set.crates {
         for d in decls {
